@@ -48,6 +48,8 @@ COMPANIONS = {
     ("treeinfo.Media", "discnum"): {"totaldiscs"},
     ("treeinfo.Media", "totaldiscs"): {"discnum"},
 }
+# dropping the key when the companion is unset is not a documented normalisation: validate() must refuse that combination
+OMISSION_REFUSED = {("images.Image", "additional_variants")}
 # documented defaults that differ from the attribute's __init__ value
 DOCUMENTED_DEFAULTS = {
     ("images.Image", "format"): "iso",     # format did not exist before 1.0 documents; every image then was an ISO
@@ -241,6 +243,13 @@ def r_schema(model, rep, qname, floor_keys):
             rep.ob("R-SCHEMA", "%s:guard:%s" % (qname, k), okg, site=wcx.site(e.ev.lineno),
                    msg="" if okg else "key %r is only written under a condition on %s (allowed: its own attribute %s)" % (
                        k, sorted(gattrs - allowed), sorted(allowed)))
+            for comp in sorted(gattrs - {attr}) if okg and (qname, k) in OMISSION_REFUSED else ():
+                from .validation import omission_refused
+                okr = omission_refused(model, cls, attr, comp)
+                rep.ob("R-SCHEMA", "%s:omission-refused:%s" % (qname, k), okr, site=wcx.site(e.ev.lineno),
+                       msg="" if okr else "key %r is only written when self.%s is set, and validate() does not refuse an object with "
+                                          "self.%s set and self.%s unset: such an object is written without %r and read back "
+                                          "with the default" % (k, comp, attr, comp, k))
             conditional = bool(guards)
             for r, s in R[k]:
                 rguards = [g for g in r.guards]
@@ -250,7 +259,8 @@ def r_schema(model, rep, qname, floor_keys):
                     okc = s[1] == "soft" or guarded_read
                     rep.ob("R-SCHEMA", "%s:optional:%s" % (qname, k), okc, site="%s:%s" % (cls.module.rel(), r.ev.lineno),
                            msg="" if okc else "key %r is written conditionally but read unconditionally (KeyError on the library's own output)" % k)
-                if s[1] == "soft":
+                if s[1] == "soft" and conditional:
+                    # (the default of a key that is always written is never used on the library's own output)
                     d = s[2]
                     ia = init.get(attr)
                     want = None
@@ -499,8 +509,21 @@ def r_required(model, rep):
                            facts={"access": "soft", "new_optional_key": True})
                     continue
                 rejected = False
-                if s[1] == "soft" and s[2] is not None and s[2][0] == "const":
-                    rejected = _validator_rejects_default(model, cls, r.attr, s[2][1])
+                d = s[2] if s[1] == "soft" else None
+                if d is not None:
+                    # a default that depends on the format version only: the one in force for a current-version document
+                    d = facts.pick_at_version(d, V)
+                if d is not None and d[0] == "const":
+                    dv, raises = d[1], False
+                    # the coercion applied to what was read is applied to the default as well
+                    acc = s[3] if len(s) > 3 else None
+                    if acc is not None and r.value[0] == "call" and r.value[1][0] == "global" and r.value[2] == (acc,) and not r.value[3]:
+                        if r.value[1][1] == "int":
+                            raises = not isinstance(dv, (int, float, str)) or (isinstance(dv, str) and not dv.strip().lstrip("+-").isdigit())
+                            dv = int(dv) if not raises else dv
+                        elif r.value[1][1] == "bool":
+                            dv = bool(dv)
+                    rejected = raises or _validator_rejects_default(model, cls, r.attr, dv)
                 rep.ob("R-REQUIRED", "%s:%s" % (qname, k), rejected, site="%s:%s" % (cls.module.rel(), r.ev.lineno),
                        msg="" if rejected else "mandatory key %r is read with a default (%s) that the validator of %s accepts: a "
                                                "document lacking the key would load" % (k, T.show(s[2]) if s[2] else "guarded read", r.attr))
